@@ -101,7 +101,7 @@ func c04Scripts(tier string) []uciParams {
 func init() {
 	Defs["C04"] = &Def{
 		ID:   "C04",
-		Rule: "engine (plain alpha-beta + the four bundled engines, constructed by code LIFTED from cmd/*/main.go at check time) x options (Hash 0/1, Noise, OwnBook on/off, flags) x set-up (K v K both colours, checkmated, stalemated, claimable three-fold via moves, half-move clock 100, fortress with and without moves, start position with book) x go variant (depth 1/2, bare, movetime, wtime/btime(+movestogo), infinite->stop, depth->stop, go;await;go, go;await;go infinite;stop). The GUI awaits each bestmove; `stop` is released at scheduler step k for a grid of k over the whole unstopped run, timers likewise; all schedules within the deviation bound. Oracle per execution: every go answered by exactly one bestmove (a GUI parked forever on await = missing answer), the move is reference-legal in the position last set up, 0000 iff that position has no legal move. distinct_nontrivial = distinct event-log classes",
+		Rule: "engine (plain alpha-beta + the four bundled engines, constructed by code LIFTED from cmd/*/main.go at check time) x options (Hash 0/1, Noise, OwnBook on/off, flags) x set-up (K v K both colours, checkmated, stalemated, claimable three-fold via moves, half-move clock 100, fortress with and without moves, start position with book) x go variant (depth 1/2, bare, movetime, wtime/btime(+movestogo), infinite->stop, depth->stop, go;await;go, go;await;go infinite;stop). The GUI awaits each bestmove; `stop` is released at scheduler step k for a grid of k over the whole unstopped run, timers likewise, each engine goroutine in turn held back for 80 steps after the stop (slow-thread dimension); all schedules within the deviation bound. Oracle per execution: every go answered by exactly one bestmove (a GUI parked forever on await = missing answer), the move is reference-legal in the position last set up, 0000 iff that position has no legal move. distinct_nontrivial = distinct event-log classes",
 		Gen: func(tier string) []explore.Scenario {
 			var out []explore.Scenario
 			for _, p := range c04Scripts(tier) {
@@ -136,6 +136,14 @@ func init() {
 					q := p
 					q.Release = k
 					out = append(out, uciScenario(q))
+					if tier == "thorough" || (p.Engine == "plain" && k%(3*stride) == 0) {
+						// one engine goroutine is slow for a while after the stop arrives
+						for slow := 2; slow <= 5; slow++ {
+							r := p
+							r.Release, r.Slow, r.Until = k, slow, 80
+							out = append(out, uciScenario(r))
+						}
+					}
 					if timed && k > 0 { // timers fire half-way to / three quarters of the way to the stop
 						q.Timer = k / 2
 						out = append(out, uciScenario(q))
